@@ -47,6 +47,12 @@ CHECKS = {
             'generated-input search over sizes 6..400, null rows/columns, clusters closer than the old rounding granularity, '
             'sort on/off, reduced_dof on/off, k=1..25, both paths, through analysis.freq and Panel.freq',
             'trusts numpy/scipy dense eigen-solvers as reference; ARPACK start vectors are pinned', '3 C06'),
+    'C07': ('Hypothesis-generated load sets and structures; metamorphic/virtual-work oracle against the package own field '
+            'recovery; linear-algebra oracle (residual, dense reference, linearity) for the solvers',
+            'generated-input search over forces (interior/edge/corner, constant/incrementable, load factor) on single panels of '
+            'every model, assemblies of 2..6 panels in any order and bays with 0..3 stiffeners of the three kinds; solver '
+            'sub-checks on random SPD systems with null rows/columns and on Panel.static()',
+            'displacements at the force points come from the package field recovery (checked independently in C11)', '3 C07'),
     'C08': ('Hypothesis-generated states; differential oracle (reference fint/kT at the same Gauss points) + package-only '
             'oracles: Richardson finite difference of fint (exact for the cubic fint), closed-path work, small-state limit',
             'generated-input search over plate/cpanel x B-coupled laminates x flags x states up to 5h x Gauss orders x laminate '
